@@ -52,9 +52,6 @@ CONSTANTS MaxRoots,   \* enumeration bound on the number of roots on the command
           Source,     \* "enum" | "file"
           PermuteUpTo,\* listing orders other than the sorted one are explored for inputs with at most this many roots
           ReuseUpTo,  \* the reused output directory is explored for inputs with at most this many roots
-          SidebarIds, \* "process_counter" : ExpandableItem.last_ExpandableItem_id (pages/sidebar.py:398) is a class
-                      \*            attribute that is never reset: the ids of the expandable sidebar items continue where
-                      \*            the previous run of the process stopped  |  "per_run"
           SameProcUpTo,\* a run after another run in the same process is explored for inputs with at most this many roots
           EpochRule,  \* "is_set" : SOURCE_DATE_EPOCH fixes the build time whenever the variable exists,
                       \*            whatever its number (driver.py:39-45: int(os.environ[...]), except KeyError)
@@ -85,7 +82,10 @@ CONSTANTS MaxRoots,   \* enumeration bound on the number of roots on the command
 (*           (--html-summary-pages: only the summary pages are written -   *)
 (*           and, for a single root, the <root>.html symlink, which then   *)
 (*           dangles).  expand: --sidebar-expand-depth=2 (the sidebar has  *)
-(*           numbered expandable items).  permute: listing orders other    *)
+(*           numbered expandable items).  tpl: --template-dir with two     *)
+(*           footer templates whose names differ only by case: the scan is *)
+(*           sorted (Template.fromdir, fix 731f7f4), the one sorted last   *)
+(*           is used whatever the listing order.  permute: listing orders other    *)
 (*           than the sorted one, and the second-run-of-a-process case,    *)
 (*           are explored for this variant                                 *)
 Universe == IF Source = "enum" THEN JsonDeserialize(IOEnv.C18_UNIVERSE)
@@ -131,7 +131,8 @@ EpochFixes(v) == v.epochset /\ (EpochRule = "is_set" \/ v.epoch # 0)
 \* TemplateWriter.writeIndividualFiles resets ChildTable.last_id: whatever the process did before (outdir = "sameproc")
 IdBase == 0
 \* number of the first expandable sidebar item (only with --sidebar-expand-depth > 1)
-SidebarBase == IF SidebarIds = "process_counter" /\ outdir = "sameproc" /\ var.expand THEN 1 ELSE 0
+\* ... also reset by writeIndividualFiles (fix d031189)
+SidebarBase == 0
 BuildTime == IF EpochFixes(var) THEN <<0, var.epoch>> ELSE <<1, clock>>     \* <<1, c>>: now()
 
 RootRec(r) == CHOOSE x \in Rng(u.roots) : x.id = r
@@ -251,7 +252,9 @@ ModuleOfPage(f) == IF f = <<0, 0>> THEN <<roots[1]>> ELSE Tail(f)
 (* The written tree.  File ids are sequences of numbers:                   *)
 (*   <<0, k>>       index.html (k=0) and the summary pages                 *)
 (*   <<1>> \o path  the page of a module                                   *)
-(*   <<2, r>>       the symlink <root>.html -> index.html (writer.py:101)  *)
+(*   <<2, r>>       the symlink <root>.html -> index.html (writer.py:101;  *)
+(*                  not for a root named `index`, 38e26a0 - no such root   *)
+(*                  in the universes)                                      *)
 Summary == {<<0, k>> : k \in 1..5}    \* moduleIndex classIndex nameIndex undoccedSummary all-documents
 Single == Len(roots) = 1
 PageFile(m) == IF Single /\ m = <<roots[1]>> THEN <<0, 0>> ELSE <<1>> \o m      \* model.py:236-239
@@ -293,6 +296,7 @@ Post == PrintT(ToJson([dependent |-> SetToSeq(Dependent), projects |-> NProjects
 FileList(f) == SetToSeq(DOMAIN f)
 Emit == Done =>
   PrintT(ToJson([pid |-> pid, reg |-> Reg, roots |-> roots, named |-> named, var |-> var, outdir |-> outdir,
+                 footer |-> IF var.tpl THEN "sorted-last" ELSE "default",
                  buildtime |-> BuildTime, idbase |-> IdBase, sidebarbase |-> SidebarBase,
                  setOrder |-> setOrder, listing |-> listing,
                  projname |-> projname, mods |-> mods, files |-> FileList(out),
